@@ -17,7 +17,7 @@ ghost field shardInfo.gLive bool
 ghost field shardInfo.gReported set[uint64]
 // ownership back-pointers (make distinct shardInfos have distinct runtime objects, scraping maps and shards)
 ghost field shard.RuntimeInfo.gOwner ref
-ghost global gScrOwner seq[int]
+ghost global gScrOwner refseq[int]
 // hashes currently discovered (key set of what getActive returned in this cycle)
 ghost global gActive set[uint64]
 // the configuration the coordinator currently runs (what getConfig returns)
@@ -36,7 +36,7 @@ pred wfShard(s) = s.runtime != nil && s.shard != nil
     && s.gHead == s.runtime.HeadSeries && s.gProc == s.runtime.ProcessSeries
     && s.runtime.gOwner == s
     && (s.scraping != nil ==> gScrOwner[s.scraping] == s)
-    && s.shard.gInfo == s
+    && s.shard.gInfo == s && s.shard.APIGet != nil && s.shard.APIPost != nil
 
 // data-structure invariant over every shardInfo of the cycle
 pred wfAll() = forall o : *shardInfo :: (o.gLive && allocated(o)) ==> (o != nil && wfShard(o))
@@ -179,7 +179,7 @@ contract Coordinator.alleviateShards
   loop 3 invariant plannedActive(changeAbleShards)
   loop 3 invariant[C01] monotoneAll()
 
-pred wfActive(active) = forall h, t in active :: t != nil && t.ShardTarget != nil
+pred wfActive(active) = forall h, t in active :: t != nil && t.ShardTarget != nil && t.ShardTarget.Hash == h
 
 pred wfGlobal(g) = forall h, st in g :: st != nil ==> wfStatus(st)
 
@@ -326,7 +326,7 @@ contract field Coordinator.getActive()
   modifies nothing
 
 contract Coordinator.getOneShardInfo
-  requires wfCoord(c) && s != nil && wfAll() && s.gInfo == nil
+  requires wfCoord(c) && s != nil && wfAll() && s.gInfo == nil && s.APIGet != nil && s.APIPost != nil
   ensures result != nil && fresh(result) && result.gLive && result.shard == s
   ensures wfAll()
   ensures[C01] result.changeAble ==> keys(result.scraping) == result.gReported && result.gReported == s.gList
@@ -346,7 +346,7 @@ contract Coordinator.getOneShardInfo
            do result.gReported = keys(result.scraping)
            do s.gInfo = result
 
-pred freshShards(shards) = (forall s in shards :: s != nil && s.gInfo == nil) && (forall a in 0..len(shards) :: forall b in 0..len(shards) :: a != b ==> shards[a] != shards[b])
+pred freshShards(shards) = (forall s in shards :: s != nil && s.gInfo == nil && s.APIGet != nil && s.APIPost != nil) && (forall a in 0..len(shards) :: forall b in 0..len(shards) :: a != b ==> shards[a] != shards[b])
 
 contract Coordinator.getShardInfos
   requires wfCoord(c) && wfAll() && freshShards(shards)
@@ -355,6 +355,7 @@ contract Coordinator.getShardInfos
   ensures forall j in 0..len(shards) :: result[j].shard == shards[j]
   ensures forall m : int :: old(allocated(m)) ==> gScrOwner[m] == old(gScrOwner[m])
   ensures[C01] reportedIsPlanned(result)
+  ensures[C01] forall j in 0..len(shards) :: (result[j].changeAble ==> result[j].gReported == shards[j].gList)
   ensures[C08] @unready_shard_gets_no_request forall j in 0..len(shards) :: !shards[j].Ready ==> !result[j].changeAble && sameRequests(shards[j])
   ensures[C08] @no_target_or_extra_config_update forall j in 0..len(shards) :: shards[j].gPostTargets == old(shards[j].gPostTargets) && shards[j].gPostExtra == old(shards[j].gPostExtra)
   ensures[C08] @in_sync_only_with_matching_hash forall j in 0..len(shards) :: result[j].changeAble ==> shards[j].Ready && result[j].runtime.ConfigHash == c.gCfg.ConfigHash
@@ -367,23 +368,55 @@ contract Coordinator.getShardInfos
   loop 1 invariant forall a in 0..idx1 :: forall b in 0..idx1 :: a != b ==> all[a] != all[b]
   loop 1 invariant forall j in idx1..len(shards) :: shards[j].gInfo == nil
   loop 1 invariant[C01] forall j in 0..idx1 :: all[j].changeAble ==> keys(all[j].scraping) == all[j].gReported
+  loop 1 invariant[C01] forall j in 0..idx1 :: (all[j].changeAble ==> all[j].gReported == shards[j].gList)
   loop 1 invariant[C08] @unready_shard_gets_no_request forall j in 0..idx1 :: !shards[j].Ready ==> !all[j].changeAble && sameRequests(shards[j])
   loop 1 invariant[C08] @untouched_so_far forall j in idx1..len(shards) :: sameRequests(shards[j])
   loop 1 invariant[C08] @no_target_or_extra_config_update forall j in 0..len(shards) :: shards[j].gPostTargets == old(shards[j].gPostTargets) && shards[j].gPostExtra == old(shards[j].gPostExtra)
   loop 1 invariant[C08] @in_sync_only_with_matching_hash forall j in 0..idx1 :: all[j].changeAble ==> shards[j].Ready && all[j].runtime.ConfigHash == c.gCfg.ConfigHash
 
 // ---------- sending the plan (C08) ----------
+// the list built for a shard contains every planned hash that is still discovered; every hash of the list has a
+// position in it (ghost witnesses, consumed by Shard.UpdateTarget)
+on insert shardInfo.newTargets(s, job, lst) in updateScrapingTargets
+   do gListHashes = seqset(gListHashes, s.newTargets, setadd(gListHashes[s.newTargets], lst[len(lst) - 1].Hash))
+   do gListWJob = seqset(gListWJob, s.newTargets, seqset(gListWJob[s.newTargets], lst[len(lst) - 1].Hash, job))
+   do gListWIdx = seqset(gListWIdx, s.newTargets, seqset(gListWIdx[s.newTargets], lst[len(lst) - 1].Hash, len(lst) - 1))
+
+pred plannedListed(s, active) = forall h in s.scraping :: (h in active ==> h in gListHashes[s.newTargets])
+
 contract updateScrapingTargets
-  requires wfAll() && live(shards) && wfActive(active)
-  modifies shardInfo.newTargets, mapof(shardInfo.newTargets), elems(shardInfo.newTargets) at {}, target.Target.* at {}
+  requires wfAll() && live(shards) && distinctShards(shards) && wfActive(active)
+  ensures[C01] @list_contains_every_planned_discovered_target forall s in shards :: plannedListed(s, active)
+  ensures[C01] @list_positions forall s in shards :: (s.newTargets != nil && fresh(s.newTargets) && listHashesWitnessed(s.newTargets) && (forall job, l in s.newTargets :: forall t in l :: t != nil))
+  modifies shardInfo.newTargets, mapof(shardInfo.newTargets), elems(shardInfo.newTargets) at {}, target.Target.* at {}, gListHashes, gListWJob, gListWIdx
+  loop 1 invariant forall j in 0..idx1 :: plannedListed(shards[j], active)
+  loop 1 invariant forall j in 0..idx1 :: (shards[j].newTargets != nil && fresh(shards[j].newTargets) && allocated(shards[j].newTargets) && listHashesWitnessed(shards[j].newTargets) && (forall job, l in shards[j].newTargets :: forall t in l :: t != nil && fresh(t)))
+  loop 1 invariant forall a in 0..idx1 :: forall b in 0..idx1 :: a != b ==> shards[a].newTargets != shards[b].newTargets
+  loop 2 invariant forall j in 0..idx1 :: plannedListed(shards[j], active)
+  loop 2 invariant forall j in 0..idx1 :: (shards[j].newTargets != nil && fresh(shards[j].newTargets) && allocated(shards[j].newTargets) && listHashesWitnessed(shards[j].newTargets) && (forall job, l in shards[j].newTargets :: forall t in l :: t != nil && fresh(t)))
+  loop 2 invariant forall a in 0..idx1 :: forall b in 0..idx1 :: a != b ==> shards[a].newTargets != shards[b].newTargets
+  loop 2 invariant s == shards[idx1] && s.newTargets != nil && fresh(s.newTargets) && allocated(s.newTargets) && listHashesWitnessed(s.newTargets) && (forall job, l in s.newTargets :: forall t in l :: t != nil && fresh(t))
+  loop 2 invariant forall j in 0..idx1 :: shards[j].newTargets != s.newTargets
+  loop 2 invariant forall h in visited2 :: (h in s.scraping && h in active ==> h in gListHashes[s.newTargets])
+  loop 2 invariant forall h in s.scraping :: h in range2
 
 pred untouchedRequests(shards) = forall j in 0..len(shards) :: !shards[j].changeAble ==> sameRequests(shards[j].shard)
 
+// what an in-sync shard lists after the plan was applied: every planned target that is still discovered and that the
+// shard itself reported is in its list - whether the update was posted and succeeded (the posted list contains it),
+// was not needed, or failed (the reported list still contains it)
+pred listedAfterApply(s) = forall h in s.scraping :: ((h in gActive && h in s.gReported) ==> h in s.shard.gList)
+pred readyToApply(s) = s.changeAble ==> (s.shard.gList == s.gReported && s.newTargets != nil && listHashesWitnessed(s.newTargets)
+      && (forall job, l in s.newTargets :: forall t in l :: t != nil) && (forall h in s.scraping :: (h in gActive ==> h in gListHashes[s.newTargets])))
+
 contract Coordinator.applyShardsInfo
-  requires wfCoord(c) && wfAll() && live(shards)
+  requires wfCoord(c) && wfAll() && live(shards) && distinctShards(shards) && (forall s in shards :: readyToApply(s))
   ensures[C08] @no_update_for_unready_or_out_of_sync untouchedRequests(shards)
-  modifies shard.Shard.gPostTargets, shard.Shard.gPostExtra, shard.Shard.gList, shard.UpdateTargetsRequest.* at {}
+  ensures[C01] @every_in_sync_shard_lists_its_planned_reported_targets forall s in shards :: (s.changeAble ==> listedAfterApply(s))
+  modifies shard.Shard.gPostTargets, shard.Shard.gPostExtra, shard.Shard.gList, shard.UpdateTargetsRequest.* at {}, gPostedKeys
   loop 1 invariant[C08] @no_update_for_unready_or_out_of_sync untouchedRequests(shards)
+  loop 1 invariant[C01] forall j in 0..idx1 :: (shards[j].changeAble ==> listedAfterApply(shards[j]))
+  loop 1 invariant forall j in idx1..len(shards) :: (shards[j].changeAble ==> shards[j].shard.gList == shards[j].gReported)
 
 // ---------- status bookkeeping ----------
 pred allEntriesWf(g) = forall h, st in g :: wfStatus(st)
@@ -449,6 +482,11 @@ on after space.add(s, src) in Coordinator.runOnce
 on call updateScrapingTargets(shards, act) in Coordinator.runOnce
    assert[C01] @coverage_after_planning covered(changeAbleShards, active)
 
+// C01, top-level statement for one replica, after the plan was applied: a discovered target that an in-sync shard
+// reported is in the target list of an in-sync shard
+on call Coordinator.updateScrapeStatusShards(c, shards, status) in Coordinator.runOnce
+   assert[C01] @still_listed_after_the_cycle forall h in active :: ((exists s in changeAbleShards :: h in s.gReported) ==> (exists s in changeAbleShards :: h in s.shard.gList))
+
 // proof steps for the status bookkeeping at the end of an iteration (each is checked, then used)
 on call Coordinator.updateScrapeStatusShards(c, shards, status) in Coordinator.runOnce
    assert @lemma_active_keys gActive == keys(active)
@@ -456,6 +494,9 @@ on call Coordinator.updateScrapeStatusShards(c, shards, status) in Coordinator.r
    assert @lemma_planned_active plannedActive(shards)
    assert @lemma_live live(shards)
 
+on call Coordinator.applyShardsInfo(c, shards) in Coordinator.runOnce
+   assert @lemma_lists_are_the_reports forall s in shards :: (s.changeAble ==> s.shard.gList == s.gReported)
+   assert @lemma_active_keys2 gActive == keys(active)
 on call Coordinator.gcTargets(c, shards, act) in Coordinator.runOnce
    assert @lemma_status_unowned gScrOwner[lastGlobalScrapeStatus] == nil
    assert @lemma_status_wf0 allEntriesWf(lastGlobalScrapeStatus)
@@ -489,7 +530,7 @@ contract Coordinator.runOnce
   modifies shardInfo.*, shard.RuntimeInfo.*, target.ScrapeStatus.*, mapof(shardInfo.scraping), mapof(shardInfo.newTargets), elems(shardInfo.newTargets) at {},
            target.Target.* at {}, shard.Shard.*, shard.UpdateConfigRequest.* at {}, shard.UpdateTargetsRequest.* at {},
            tkestack.io/kvass/pkg/scrape.StatisticsSeriesResult.* at {}, mapof(tkestack.io/kvass/pkg/scrape.StatisticsSeriesResult.MetricsTotal) at {},
-           Coordinator.lastGlobalScrapeStatus at {c}, gScrOwner, gClock, gActive, gSpaceKnown, gNeedHead, gNeedProc, gListCalls, gListedOk, gPlannedReplicas, gEarlyScaleFailed, gReplicasOK
+           Coordinator.lastGlobalScrapeStatus at {c}, gScrOwner, gClock, gActive, gSpaceKnown, gNeedHead, gNeedProc, gListCalls, gListedOk, gPlannedReplicas, gEarlyScaleFailed, gReplicasOK, gPostedKeys, gListWJob, gListWIdx, gListHashes
   loop 1 invariant[C19] gListCalls == old(gListCalls) + idx1 && gPlannedReplicas - old(gPlannedReplicas) + gEarlyScaleFailed - old(gEarlyScaleFailed) == gListedOk - old(gListedOk)
   loop 1 invariant wfAll()
   loop 1 invariant newLastGlobalScrapeStatus != nil && fresh(newLastGlobalScrapeStatus) && gScrOwner[newLastGlobalScrapeStatus] == nil && allEntriesWf(newLastGlobalScrapeStatus)
